@@ -12,11 +12,13 @@ CLAIMED = {
             "KVStoreConc.tla extends the sequential KVStore spec with Invoke / silent Lin / Return per call (a committed batch = one Lin per "
             "write, Iterate reads the whole map in its Lin); TLC checks the closed composition (2-3 threads) and a per-entry-iteration "
             "negative control; concurrent histories of the real store (2-16 goroutines, all views, flushkv, occasional Close; built with the "
-            "race detector, 20 s watchdog) and forced schedules (Iterate consumers as gates; a gated Flush between flushkv and mapdb) are "
-            "recorded and TLC searches a placement of the linearization points for each; a race report or a hang is a violation.",
-            "No schedules forced inside mapdb's critical sections; 8-16 goroutine runs use few writers (TLC search cost); one known finding "
+            "race detector, 20 s watchdog), forced schedules (Iterate consumers as gates; a gated Flush between flushkv and mapdb) and "
+            "controlled schedules (token scheduler over the acquisitions of the shared map's lock, hook 733e506: random interleavings at the "
+            "grain of the lock's critical sections, few-preemption schedules, atomicity probes that stop a multi-key call between two "
+            "acquisitions) are recorded and TLC searches a placement of the linearization points for each; a race report or a hang is a violation.",
+            "Controlled schedules use private handles and 2-3 goroutines; 8-16 goroutine runs use few writers (TLC search cost); one known finding "
             "(flushkv mutation visible but ErrStoreClosed when Close falls between the inner call and the trailing Flush).",
-            "TLA+ linearizability spec with silent steps (TLC DFS trace validation), forced Iterate schedules, Go race detector"),
+            "TLA+ linearizability spec with silent steps (TLC DFS trace validation), forced and lock-grain controlled schedules, Go race detector"),
     "C15": ("5/C15",
             "TLA+ modules Events, Promise, Notifier at quiescent points (hook/promise callbacks as gates; Hook/Unhook from inside a running "
             "callback and during an in-flight Trigger, LinkTo re-linking, max trigger counts, listener re-creation after Notify, Wait on "
